@@ -167,6 +167,15 @@ func (c *ConstantStruct) Link(scope Scope, t TypeSpec) (ConstantValue, error) {
 		return nil, constantValueCastError{Value: c, Type: t}
 	}
 
+	// Link a copy: the same ConstantStruct is linked again when a constant
+	// that refers to it is cast to another struct type, and that must not add
+	// the other type's defaulted fields to the referenced constant.
+	fields := make(map[string]ConstantValue, len(c.Fields))
+	for name, value := range c.Fields {
+		fields[name] = value
+	}
+	c = &ConstantStruct{Fields: fields}
+
 	for _, field := range s.Fields {
 		f, ok := c.Fields[field.Name]
 		if !ok {
